@@ -183,6 +183,7 @@ structure St where
   optimistic : List Nat := []          -- unchoker.peersUnchokedOptimistic
   nUnchoke : Nat := 3
   nOptimistic : Nat := 1
+  stopHang : Bool := false             -- a tracker does not answer `stopped`: the stop announcer is still waiting
   dials : Nat := 0                     -- outgoing connection attempts seen by the harness's sink address
   banned : List String := []
   panicked : Option String := none
@@ -619,9 +620,8 @@ def handleVerificationDone (m : M) : M :=
     if c && m.1.cfg.stopAfter then onSt m (·.stop false)
     else onSt (processQueued m) fun s => ({ s with acceptor := true }).startDls
 
-/-- `start()` (torrent_start.go) -/
-def start (m : M) : M :=
-  if m.1.errC then m else
+/-- The body of `start()` once it is known that the torrent is neither running nor stopping. -/
+def startCore (m : M) : M :=
   let m := onSt m fun s => { s with stopAnn := false, errC := true, lastErr := false }
   let s := m.1
   if s.info then
@@ -631,16 +631,23 @@ def start (m : M) : M :=
     else onSt m fun s => if s.allocator then s.crash "allocator exists" else { s with allocator := true }
   else onSt m fun s => { s with acceptor := true, mayStartI := true }
 
-/-- `handleStopped()` -/
+/-- `handleStopped()`: the torrent is stopped now; a pending verify restarts it without its bitfield
+(the restart is `start()` with neither `errC` nor a stop announcer set, i.e. `startCore`). -/
 def handleStopped (m : M) : M :=
   let m := onSt m fun s => { s with stopAnn := false, errC := false }
-  if m.1.doVerify then start (onSt m fun s => { s with bf := none })
+  if m.1.doVerify then startCore (onSt m fun s => { s with bf := none })
   else m
+
+/-- `start()` (torrent_start.go).  A start while the torrent is still stopping closes the stop announcer
+and finishes the stop at once (fix for finding C04-F3: the command used to be dropped). -/
+def start (m : M) : M :=
+  let m := if m.1.stopAnn then handleStopped (onSt m fun s => { s with stopHang := false }) else m
+  if m.1.errC then m else startCore m
 
 /-- `handleVerifyCommand()` -/
 def handleVerifyCommand (m : M) : M :=
   let m := onSt m fun s => { s with doVerify := true }
-  if m.1.status = .stopped then start (onSt m fun s => { s with bf := none })
+  if m.1.status = .stopped then startCore (onSt m fun s => { s with bf := none })
   else onSt m (·.stop false)
 
 /-- Storage calls of the allocator: every non-padding file is opened in order. -/
@@ -687,7 +694,7 @@ def runWorkers : Nat → M → M
   | fuel + 1, m =>
     let s := m.1
     if s.panicked.isSome then m
-    else if s.stopAnn then runWorkers fuel (handleStopped m)
+    else if s.stopAnn && !s.stopHang then runWorkers fuel (handleStopped m)
     else if s.allocator && !s.gateOpen then runWorkers fuel (allocatorRun m)
     else if s.verifier && !s.gateRead then runWorkers fuel (handleVerificationDone m)
     else
